@@ -28,6 +28,9 @@ CHECK = {
              quick={"checks": 1000, "shards": 1, "cap": 600},
              thorough={"checks": 4000, "shards": 16, "cap": 2400},
              no_ulimit=True, flaky_is_violation=True,
-             env={"BAO_RAFT_DISABLE_MAP_POPULATE": "1"}),
+             # a bolt file that outgrows its mapping is remapped under a lock every open read transaction holds: with
+             # the driver's small default mapping (16 MB) the FSM's next write then waits for the harness's own open
+             # transaction for ever (seen in the thorough tier); production maps 100 GB up front, the unit maps 2 GB
+             env={"BAO_RAFT_DISABLE_MAP_POPULATE": "1", "BAO_RAFT_INITIAL_MMAP_SIZE": str(2 << 30)}),
     ],
 }
